@@ -216,6 +216,7 @@ func (a *Analysis) Result(ct *CodecType) *TypeResult {
 	a.mu.Unlock()
 	r := &TypeResult{CT: ct}
 	r.EncPaths, r.EncErr = a.engineFor(ct.Encode).AnalyzeRoot(ct.Encode, nil)
+	r.EncPaths = expandFrameAlts(r.EncPaths)
 	r.DecPaths, r.DecErr = a.engineFor(ct.Decode).AnalyzeRoot(ct.Decode, nil)
 	for _, p := range r.EncPaths {
 		if pathKind(p) != "ok" {
@@ -607,4 +608,50 @@ func (a *Analysis) collapseNestedRuns(ct *CodecType, c *layoutCtx, fs []*FieldLa
 		return nct.Name, c.fieldName(outer), pl.Layout.Fields
 	}
 	return collapseNested(fs, nestedOf, layoutOf)
+}
+
+// expandFrameAlts: the frame rules (C04, C05, C06-A1) reason about positions in the top-level sequence of a path. When
+// a frame writes its header and body through a helper with alternatives (body present / absent), those writes sit
+// inside one ALT event; such a path is split into one path per alternative, the alternative's conditions inserted
+// where the helper was called. Only paths that patch or checksum are split (at most a few alternatives each).
+func expandFrameAlts(paths []*Path) []*Path {
+	var out []*Path
+	for _, p := range paths {
+		out = append(out, expandFrameAlt(p, 0)...)
+	}
+	return out
+}
+
+func expandFrameAlt(p *Path, depth int) []*Path {
+	isFrame := false
+	for _, e := range p.Events {
+		if e.Kind == EvPatch || e.Kind == EvCalc {
+			isFrame = true
+		}
+	}
+	if !isFrame || depth > 3 {
+		return []*Path{p}
+	}
+	for i, e := range p.Events {
+		if e.Kind != EvAlt || !countsAsWire(e) || len(e.Iter) < 2 || len(e.Iter) > 4 {
+			continue
+		}
+		var res []*Path
+		for _, arm := range e.Iter {
+			np := *p
+			k := len(arm.Conds)
+			cut := min(e.NCond, len(p.Conds))
+			np.Conds = append(append(append([]Cond(nil), p.Conds[:cut]...), arm.Conds...), p.Conds[cut:]...)
+			np.Events = append([]*Event(nil), p.Events[:i]...)
+			np.Events = append(np.Events, arm.Events...)
+			for _, later := range p.Events[i+1:] {
+				c := *later
+				c.NCond += k
+				np.Events = append(np.Events, &c)
+			}
+			res = append(res, expandFrameAlt(&np, depth+1)...)
+		}
+		return res
+	}
+	return []*Path{p}
 }
